@@ -25,6 +25,10 @@ def assign_configs(behaviours, prof, sd):
              "key_alpha": kalphas[j % len(kalphas)],
              "val_alpha": valphas[(j // 2) % len(valphas)],
              "blob": blobs[(j // 3) % len(blobs)]}
+        # "split all" (table target size 1) only cuts at every key when every item spills
+        # its own data block
+        if any(op.get("split") == "all" for op in ops):
+            b["block_size"] = 1
         out.append(b)
     return out
 
@@ -70,7 +74,10 @@ def run(prop, tier, prof, replay_path=None):
     try:
         return _run(prop, tier, prof, replay_path, t0, sd, work)
     finally:
-        shutil.rmtree(work, ignore_errors=True)
+        if os.environ.get("VERIF_KEEP"):
+            log(f"work dir kept: {work}")
+        else:
+            shutil.rmtree(work, ignore_errors=True)
 
 
 def _run(prop, tier, prof, replay_path, t0, sd, work):
@@ -104,7 +111,15 @@ def _run(prop, tier, prof, replay_path, t0, sd, work):
                 f"counterexample ({len(verify['cex_ops'])} steps) on the real tree")
             raw.append(verify["cex_ops"])
         # 2. generate behaviours
+        driven = []
         for g in tp["gen"]:
+            if g["mode"] == "drive":
+                import drive
+                ds = drive.behaviours(sd * 7919 + len(driven), g["count"], g.get("nkeys", prof["nkeys"]),
+                                      g["steps"], g["weights"], **g.get("kw", {}))
+                log(f"[{prop}] generated {len(ds)} behaviours (drive) t={round(time.time()-t0)}s")
+                driven.extend(ds)
+                continue
             if g["mode"] == "sim":
                 bs = vlib.tlc_generate_sim(prop, g["constants"], work, g["num"], g["depth"],
                                            sd + 17 * len(raw))
@@ -115,7 +130,12 @@ def _run(prop, tier, prof, replay_path, t0, sd, work):
                     bs = bs[:g["max"]]
             log(f"[{prop}] generated {len(bs)} behaviours ({g['mode']}) t={round(time.time()-t0)}s")
             raw.extend(bs)
-        raw = dedupe(raw)
+        raw = dedupe(raw) + driven
+        if prof.get("scans"):
+            import random
+            import drive
+            rng = random.Random(sd * 104729 + 1)
+            raw = [drive.add_scans(ops, rng, nkeys, **prof["scans"]) for ops in raw]
         behaviours = assign_configs(raw, prof, sd)
         # one dedicated run per listed finding shows that it still reproduces
         for f in known.get("findings", []):
@@ -145,6 +165,15 @@ def _run(prop, tier, prof, replay_path, t0, sd, work):
             other.append(m)
         else:
             drifts.append(m)
+    # a scripted / test-helper compaction that the model does not consider sound is the
+    # driver's fault: nothing after it in that behaviour is held against the code
+    illegal_from = {}
+    for m in drifts:
+        if m["kind"] == "ILLEGAL":
+            op = behaviours[m["beh"]]["ops"][m["step"] - 1]
+            if op.get("op") in ("compact", "movedown", "pulldown"):
+                illegal_from[m["beh"]] = min(illegal_from.get(m["beh"], 10**9), m["step"])
+    viols = [m for m in viols if m["step"] < illegal_from.get(m["beh"], 10**9)]
     # only the first violation of each behaviour is reported
     first = {}
     for m in sorted(viols, key=lambda x: (x["beh"], x["step"])):
@@ -176,6 +205,7 @@ def _run(prop, tier, prof, replay_path, t0, sd, work):
                 "TraceLsm; distinct = different operation sequences with >= 3 steps",
         "samples": [behaviours[i] for i in range(0, len(behaviours), max(1, len(behaviours) // 3))][:3],
         "drift_lines": len(drifts),
+        "driver_illegal_choices": len(illegal_from),
         "drift_samples": drifts[:3],
         "signals_for_other_properties": sorted({m["what"] for m in other}),
         "known_findings_reproduced": sorted({k[0]["id"] for k in known_hits} | set(tlc_known)),
